@@ -214,7 +214,7 @@ def scenarios(draw, cfg):
         if step is not None:
             steps.append(step)
             m.apply(step)
-    if cfg.get("long", True) and draw(st.integers(0, 14)) == 0:
+    if cfg.get("long", True) and draw(st.integers(0, cfg.get("long_every", 15) - 1)) == 0:
         # a long history: ten and more generations of one root (two-digit generation numbers, chains with >= 10 entries)
         root = _pick(draw, m.roots) if m.roots else ""
         for i in range(draw(st.integers(9, 12))):
